@@ -6,7 +6,9 @@
 // `sh -c 'echo "<family> <type> <id> start|stop" >> file'`, really spawned by externalcmd. A lifecycle is
 // protocol {RTSP, RTMP, SRT, HLS, WebRTC} x role {read, publish} x ending {the client closes, it is kicked through
 // the API, the publisher leaves, the path is recreated by a configuration change through the API, the protocol
-// server is recreated by a configuration change, everything is recreated, the Core shuts down; RTSP: PAUSE, PAUSE+PLAY}.
+// server is recreated by a configuration change, everything is recreated, the Core shuts down; RTSP: PAUSE, PAUSE+PLAY},
+// plus the family "the establishment of a reader session fails part-way" (role readfail, see failed.go): no publisher,
+// user without read permission, maxReaders reached, RTSP SETUP without PLAY, HLS muxer without instance, ...
 //
 // Oracle: when the Core has been closed (Core.Close drains the external command pool) the lines of every reader id
 // and of every connection id are start, stop -- exactly one pair, in that order (k pairs for a RTSP reader that
@@ -39,8 +41,8 @@ var (
 type Lifecycle struct {
 	ID      int    `json:"id"`
 	Proto   string `json:"proto"`  // rtsp rtsps rtmp rtmps srt hls webrtc
-	Role    string `json:"role"`   // read publish
-	Ending  string `json:"ending"` // close kick publeave pathreload serverreload allreload shutdown pause pauseplay idle
+	Role    string `json:"role"`   // read publish readfail
+	Ending  string `json:"ending"` // close kick publeave pathreload serverreload allreload shutdown pause pauseplay idle; readfail: see failed.go
 	Workers int    `json:"workers"`
 }
 
@@ -74,6 +76,8 @@ func buildLifecycles(thorough bool) []Lifecycle {
 			out = append(out, Lifecycle{Proto: pr, Role: "publish", Ending: e})
 		}
 	}
+	// the establishment of a reader session fails part-way (failed.go)
+	out = append(out, buildFailLifecycles(thorough)...)
 	for i := range out {
 		out[i].ID = i
 	}
@@ -132,6 +136,8 @@ func main() {
 	var harnessErrs []string
 	totalIDs, totalLines, totalPairs, coreTerminated := 0, 0, 0, 0
 	byFamily := map[string]int{}
+	failLifecycles, failWithHooks, failWithReadHooks, failObjects, failReadObjects := 0, 0, 0, 0, 0
+	failures := map[string]bool{}
 	for i, res := range results {
 		l := lcs[i]
 		if res.Crash != "" {
@@ -168,6 +174,35 @@ func main() {
 			}
 			r.Eval(1)
 			totalLines += len(lr.Lines)
+			if l.Role == roleFail {
+				replay := map[string]any{"lifecycle": l, "lines": lr.Lines, "ordered": lr.Ordered, "attempts": lr.Attempts, "steps": lr.Steps}
+				shape, objects, readObjects, malformed := judgeFail(l, lr, func(key, what string) { r.Violation(key, what, replay) })
+				for _, ln := range malformed {
+					harnessErrs = append(harnessErrs, l.key()+": malformed marker line "+fmt.Sprintf("%q", ln))
+				}
+				failLifecycles++
+				failObjects += objects
+				failReadObjects += readObjects
+				totalIDs += objects
+				totalPairs += objects
+				if objects > 0 {
+					failWithHooks++
+				}
+				if readObjects > 0 {
+					failWithReadHooks++
+				}
+				for _, a := range lr.Attempts {
+					failures[l.Proto+"/"+l.Ending+" "+a] = true
+				}
+				for _, sh := range shape {
+					byFamily[strings.Join(strings.Split(sh, "/")[:2], "/")]++
+				}
+				r.Distinct(l.key() + " " + strings.Join(shape, " ") + " || " + strings.Join(lr.Attempts, " | "))
+				if l.ID%5 == 0 {
+					r.Sample(map[string]any{"lifecycle": l.key(), "hooks": shape, "attempts": lr.Attempts, "steps": lr.Steps})
+				}
+				continue
+			}
 			// the lines of every id, in file order
 			seq := map[string][]string{}
 			var ids []string
@@ -249,6 +284,20 @@ func main() {
 		}
 		vcommon.Harness("%d lifecycles could not be run:\n  %s", len(harnessErrs), strings.Join(harnessErrs, "\n  "))
 	}
+	if failLifecycles > 0 && failWithHooks == 0 && *flagOnly == "" {
+		vcommon.Harness("no lifecycle of the family 'the establishment fails part-way' produced a hook object: the family is vacuous")
+	}
+	var failureList []string
+	for f := range failures {
+		failureList = append(failureList, f)
+	}
+	sort.Strings(failureList)
+	r.Set("failed_establishment_runs", failLifecycles)
+	r.Set("failed_establishment_runs_with_hook_objects", failWithHooks)
+	r.Set("failed_establishment_runs_with_read_hook_objects", failWithReadHooks)
+	r.Set("failed_establishment_hook_objects", failObjects)
+	r.Set("failed_establishment_read_hook_objects", failReadObjects)
+	r.Set("failed_establishment_refusals_observed", failureList)
 	r.Set("lifecycles", len(lcs))
 	r.Set("hook_objects", totalIDs)
 	r.Set("hook_pairs_expected", totalPairs)
@@ -258,7 +307,12 @@ func main() {
 	r.Rule = "protocol x role {read, publish} x ending {client closes, kicked through the API, publisher leaves, path recreated by an API " +
 		"configuration change, protocol server recreated, everything recreated, Core shutdown, RTSP PAUSE / PAUSE+PLAY, HLS idle}; every " +
 		"read lifecycle has the reader under test, a second reader of the same protocol that stays, and the publisher's connection; " +
-		"a class = lifecycle x the (family, type, role in the lifecycle, fired sequence) of every hook object"
+		"a class = lifecycle x the (family, type, role in the lifecycle, fired sequence) of every hook object || " +
+		"the establishment of a reader session fails part-way (role readfail): protocol x {no publisher, user without read permission, " +
+		"maxReaders reached, RTSP refused at SETUP instead of DESCRIBE, RTSP SETUP without PLAY then close / kick / shutdown, HLS muxer " +
+		"refused by the path, HLS always-remux muxer without instance, SRT passphrase missing, WHEP body that is no offer, WHEP offer " +
+		"answered and session deleted}, every attempt twice, a bystander reading successfully wherever a publisher exists; a class = " +
+		"lifecycle x fired hooks of every object x the way the attempts were refused"
 	r.Exhaustive = *flagOnly == ""
 	r.Assumptions = []string{
 		"hook executions are observed through marker commands really spawned by externalcmd (one line appended per execution); the harness " +
@@ -267,6 +321,13 @@ func main() {
 		"one reader under test plus one bystander per lifecycle; sequential histories (the schedules of the path-level hooks are harness c20)",
 		"runOnConnectRestart / runOnReadRestart are off; WebRTC and HLS have no connection hooks; MoQ is not driven",
 		"RTSPS / RTMPS and the 30 s HLS idle expiry only in the thorough tier",
+		"role readfail: a connection that the server closes as soon as it has accepted it (a refused reader) has its start command " +
+			"interrupted by externalcmd (by design) or running at the same time as its stop command: for the objects whose start line " +
+			"the harness could not await, the numbers of lines are judged (one stop, at most one start, never a start alone) and not " +
+			"their order; a stop line without a start line is accepted only when the Core's log shows that many start commands " +
+			"launched that wrote no line",
+		"role readfail: a lifecycle in which no hook fires is accepted (nothing was started); how many runs produced hook objects is " +
+			"in the coverage (failed_establishment_*)",
 	}
 	fmt.Printf("lifecycles=%d hook objects=%d pairs=%d lines=%d classes=%d\n", len(lcs), totalIDs, totalPairs, totalLines, r.DistinctCount())
 	r.Finish()
